@@ -259,15 +259,16 @@ let check_line (line : string) : unit =
               if not (o_isolated prog lay) then oracle "isolated" tag;
               if not (o_deps_ordered prog lay) then oracle "deps_ordered" tag;
               if not (o_barriers prog lay) then oracle "barriers" tag;
-              (* (skip_justified and print_matches recompute SystemIds from positions: ids have gaps after a rejected call;
-                  the printed text is compared with the model's in the correspondence part) *)
+              (* (skip_justified recomputes SystemIds from positions in its program: ids have gaps after a rejected call.
+                  print_matches is evaluated against the program AS WRITTEN: a rejected call consumes the id of its position,
+                  so the placeholder of an unnamed system is its position among all add/add_batch calls of its level) *)
               if not recmode && not (o_skip_justified prog lay) then oracle "skip_justified" tag;
               (match int_of_string_opt (get "maxthr") with
                | Some m -> if not (o_max_threads lay (nat_of_int m)) then oracle "max_threads" tag
                | None -> if get "maxthr" <> "na" then oracle "max_threads" tag);
               let pr = get "print" in
               if String.length pr >= 5 && String.sub pr 0 5 = "PANIC" then oracle "print_total" tag
-              else if not recmode && not (o_print prog lay (bytes_of_hex pr)) then oracle "print_matches" tag;
+              else if not (o_print (if recmode then level_prog regs (n_of_int tag) else prog) lay (bytes_of_hex pr)) then oracle "print_matches" tag;
               let tlorder = (try list_of_tok int_of_string (get "tlorder") with _ -> []) in
               if List.map n_of_int tlorder <> tl_tags prog then oracle "tl_order" tag;
               if get "sendable" <> "na" && not (o_sendable prog (get "sendable" = "1")) then oracle "sendable" tag;
